@@ -263,6 +263,25 @@ func yieldOthers() {
 	switchTo(choose(rs), true)
 }
 
+// P is the statement-level pre-emption point (see Step.PreemptEvery).
+func P() {
+	if step.PreemptEvery <= 0 || len(tasks) < 2 || exiting {
+		return
+	}
+	if schedRNG.intn(step.PreemptEvery) != 0 {
+		return
+	}
+	fireDue()
+	rs := runnable(false)
+	if len(rs) == 0 {
+		return
+	}
+	journal.StmtPreempts++
+	pick := rs[schedRNG.intn(len(rs))]
+	journal.SchedHash = mixHash(journal.SchedHash, uint64(pick.id)+7777)
+	switchTo(pick, true)
+}
+
 // Gosched replaces runtime.Gosched.
 func Gosched() { yieldOthers() }
 
